@@ -52,7 +52,8 @@ inductive Prim
   | popBufferAndWriter -- `__M_buf, __M_writer = context._pop_buffer_and_writer()`
   | pushWriter         -- `__M_writer = context._push_writer()`
   | getWriter          -- `__M_writer = context.writer()`
-  | clearNextCaller    -- `context.caller_stack.nextcaller = None`
+  | saveNextCaller     -- `__M_nextcaller = context.caller_stack.nextcaller`
+  | restoreNextCaller  -- `context.caller_stack.nextcaller = __M_nextcaller`
   | loopExit           -- `loop = __M_loop._exit()`
   deriving DecidableEq, Repr, Inhabited
 
@@ -128,6 +129,7 @@ structure Loc where
   mbuf : Str        -- `__M_buf.getvalue()`
   caller : NS       -- `__M_caller`
   lexc : NS         -- the closure variable `caller`, when the scope has one
+  savedNext : NS    -- `__M_nextcaller`: the pending caller saved by a `<%call>` of this activation
   useLex : Bool
   mod : Nat
   deriving Repr, Inhabited
@@ -241,7 +243,8 @@ def execPrim (p : Prim) (l : Loc) (σ : St) : Outcome × Loc × St :=
     | [] => (.exc excIndex, l, σ)
     | [_] => (.exc excIndex, l, { σ with bufs := [] })
     | (_, c) :: (j, c2) :: r => (.normal, { l with mbuf := c, writer := j }, { σ with bufs := (j, c2) :: r })
-  | .clearNextCaller => (.normal, l, { σ with next := [] })
+  | .saveNextCaller => (.normal, { l with savedNext := σ.next }, σ)
+  | .restoreNextCaller => (.normal, l, { σ with next := l.savedNext })
   | .loopExit => match σ.loops with
     | [] => (.exc excIndex, l, σ)
     | _ :: r => (.normal, l, { σ with loops := r })
@@ -339,7 +342,7 @@ def invoke (c : Cfg) : Nat → Clo → List Str → Loc → St → VRes × St
     | none => (.exc excArity, σ)
     | some bound =>
       let l' : Loc := { vars := bound ++ l.vars, funs := l.funs, writer := l.writer, mbuf := [],
-                        caller := clo.lex, lexc := clo.lex, useLex := clo.fn.fl.lex, mod := clo.mod }
+                        caller := clo.lex, lexc := clo.lex, savedNext := [], useLex := clo.fn.fl.lex, mod := clo.mod }
       let pre : Bool × St := if clo.fn.fl.deco then tick c.k σ else (false, σ)
       match pre with
       | (true, σ0) => (.exc excBoom, σ0)
@@ -438,7 +441,7 @@ end
 def St.init : St := { bufs := [(0, [])], nextId := 1, frames := [], next := [], loops := [], cnt := 0 }
 
 def Loc.init (mod : Nat) : Loc :=
-  { vars := [], funs := [], writer := 0, mbuf := [], caller := [], lexc := [], useLex := false, mod := mod }
+  { vars := [], funs := [], writer := 0, mbuf := [], caller := [], lexc := [], savedNext := [], useLex := false, mod := mod }
 
 /-- `callable_(context, …)` of template 0, from a given state -/
 def runBody (c : Cfg) (fuel : Nat) (σ : St) : VRes × St :=
